@@ -239,6 +239,7 @@ def _dmrg_sweep_2site_(env, opts_eigs=None, opts_svd=None, Schmidt=None, precomp
             AA = psi.pre_2site(bd, precompute=precompute)
             _, (AA,) = eigs(lambda v: env.Heff2(v, bd), AA, k=1, **opts_eigs)
             _disc_weight_bd = psi.post_2site_(AA, bd, opts_svd)
+            psi.A[psi.pC] = psi.A[psi.pC] / psi.A[psi.pC].norm()  # truncation (and the eigensolver) leave it un-normalised
             max_disc_weight = max(max_disc_weight, _disc_weight_bd)
             if Schmidt is not None and to == 'first':
                 Schmidt[psi.pC] = psi[psi.pC]
